@@ -18,7 +18,7 @@ func (x *vlExec) begin() (restore func()) {
 	}
 }
 
-var vlCaps = []int{8, 16, 64, 4096}
+var vlCaps = []int{8, 16, 64, 4096, 8, 16, 64, 4096, 8192}
 
 type vlGen struct {
 	r       *vfRng
@@ -27,7 +27,7 @@ type vlGen struct {
 	bytes   int // total payload generated so far
 }
 
-const vlMaxBytes = 24 << 20
+const vlMaxBytes = 2 << 20 // payload budget per program (the rare 8MB operations come on top)
 
 func (g *vlGen) sizeAround(vals ...int) int {
 	v := vals[g.r.intn(len(vals))]
@@ -60,7 +60,7 @@ func (g *vlGen) writeSize(lb *LinkBuffer) int {
 	case 8:
 		return r.rng(4097, 12000)
 	case 9:
-		if g.bigLeft > 0 && g.bytes < vlMaxBytes/2 {
+		if g.bigLeft > 0 {
 			g.bigLeft--
 			return g.sizeAround(8<<20, 1<<20)
 		}
@@ -337,8 +337,8 @@ func vlGenerateAndRun(seed uint64) (*vlProgram, *vlExec, *vlViolation) {
 	restore := x.begin()
 	defer restore()
 	g := &vlGen{r: r, x: x}
-	if r.chance(2) {
-		g.bigLeft = 2
+	if r.intn(250) == 0 {
+		g.bigLeft = 2 // a few programs cross the 8MB pool limit (mallocMax)
 	}
 	nops := r.rng(5, 60)
 	if r.chance(30) {
